@@ -408,6 +408,7 @@ decode_inst!(c11t_decode_u128_n18, 16, 18, false);
 
 
 
+// NOT REGISTERED (c11x_*): num-bigint arithmetic under CBMC gave no verdict within 30 min.
 // ---- the DEFAULT `ClvmEncoder::encode_bigint` (used by every encoder that does not override it,
 // e.g. clvm_utils::TreeHasher): arbitrary-precision integers take the same canonical form as the
 // fixed-width ones (`encode_number`, decided above), zero being the empty atom
@@ -456,7 +457,7 @@ fn bigint_default_is(v: i128) {
 
 #[kani::proof]
 #[kani::unwind(22)]
-fn c11t_encode_bigint_default_boundaries() {
+fn c11x_encode_bigint_default_boundaries() {
     // zero, the sign-byte boundaries of 1 and 2 bytes, and the u64 / i64 extremes
     let k: u8 = kani::any();
     kani::assume(k < 12);
@@ -481,7 +482,7 @@ fn c11t_encode_bigint_default_boundaries() {
 
 #[kani::proof]
 #[kani::unwind(22)]
-fn c11t_encode_bigint_default_all_i16() {
+fn c11x_encode_bigint_default_all_i16() {
     let v: i16 = kani::any();
     bigint_default_is(v as i128);
     kani::cover!(v == 0);
